@@ -1,4 +1,5 @@
 #include <nano/solver/lsearch.h>
+#include <nano/verif.h>
 
 using namespace nano;
 
@@ -13,11 +14,13 @@ bool lsearch_t::get(solver_state_t& state, const vector_t& descent, const logger
     assert(m_lsearch0);
     assert(m_lsearchk);
 
+    NANO_VERIF_TRACE("lsearch.begin", state.x(), state.gx(), state.fx(), descent, m_last_step_size);
     const auto init_step_size = m_lsearch0->get(state, descent, m_last_step_size);
     logger.info("[lsearch0-", m_lsearch0->type_id(), "]: t=", init_step_size, ",f=", state.fx(),
                 ",g=", state.gradient_test(), ".\n");
 
     const auto [ok, step_size] = m_lsearchk->get(state, descent, init_step_size, logger);
     m_last_step_size           = step_size;
+    NANO_VERIF_TRACE("lsearch.end", init_step_size, ok, step_size, state.x(), state.gx(), state.fx());
     return ok;
 }
